@@ -17,7 +17,7 @@ from sa.teval import agree
 from sa.sym import show, num, num_value, atoms_of
 from sa.cfg import CFG
 from sa.model import dotted, own_calls, own_nodes
-from . import memo
+from . import memo, common
 from . import C01 as c01
 
 PYR = "toasty.pyramid"
@@ -361,7 +361,7 @@ def _r5_reducers(run, ev):
         if not rets:
             run.violated("C13.R5", f, None, "%s does not return the reduction's result" % name, kind="reducer-result")
     # leaf visits: callback exactly under is_leaf, with (pos, tile)
-    f = project.fn(PYR + ".Pyramid._visit_leaves_serial")
+    f = common.splice(project, project.fn(PYR + ".Pyramid._visit_leaves_serial"))
     run.note_func(f)
     fx = _reducer_facts(ev0, f)
     cbs = [e for e in fx["r"].events if e.kind == "call" and e.term[1] == ("sym", "callback")] if fx else []
